@@ -76,9 +76,11 @@ TEXT = {
             "type; whole paths are step-wise the spec's and Path.gindex() concatenates those steps; to_gindex i d = 2^d+i; "
             "concat_gindices concatenates the steps' paths at the bit level; C08_node: for ANY representation of a value "
             "and any path through composite children, the backing node at Path.gindex() represents the addressed sub-value "
-            "and has its hash-tree-root; index 3 holds the length / selector. Dynamic indices / navigate_view of the "
+            "and has its hash-tree-root; index 3 holds the length / selector. The index arithmetic of tree.py (get_depth, to_gindex, "
+            "get_anchor_gindex, concat_gindices) is additionally TRANSLATED into Gallina on every run and proved equal to the "
+            "model's (coq/trans/TreeEq.v). Dynamic indices / navigate_view / path algebra of the "
             "Python objects: correspondence + model-free oracle.",
-            "Coq proof (case analysis on ty, N bit lemmas, Repr invariant) + correspondence", "5 (C08)"),
+            "Coq proof (case analysis on ty, N bit lemmas, Repr invariant) + translation of tree.py's index arithmetic with machine-checked equivalence + correspondence", "5 (C08)"),
     "C09": ("Theorems C09_sound / C09_stable (full statements, every type): whatever the decoder accepts (scope <= available "
             "bytes) is a well-formed value (lengths within limits, integers in range, valid selector), its backing is "
             "exactly the constructor's, its root is the spec root, re-encoding gives the consumed bytes and their count, and "
